@@ -54,6 +54,7 @@ type Client struct {
 	ID      int
 	T       *tracer.Tracer
 	Version primitive.ProtocolVersion
+	SplitAt int // > 0: SendBytes writes a frame in two pieces, the first SplitAt bytes long
 
 	nc         net.Conn
 	wmu        sync.Mutex
@@ -296,6 +297,15 @@ func (c *Client) SendBytes(b []byte, stream int, op, tok, class string) error {
 	defer c.wmu.Unlock()
 	c.emit("ClientSend", "c", c.ID, "caddr", c.LocalAddr, "stream", stream, "op", op, "t", tok, "class", class,
 		"sess", c.sessTag())
+	if k := c.SplitAt; k > 0 && k < len(b) {
+		// the frame travels in two TCP segments, the cut inside its header
+		if _, err := c.nc.Write(b[:k]); err != nil {
+			return err
+		}
+		time.Sleep(3 * time.Millisecond)
+		_, err := c.nc.Write(b[k:])
+		return err
+	}
 	_, err := c.nc.Write(b)
 	return err
 }
